@@ -413,3 +413,23 @@ prop(
     essential=dict(quick=["misuse-call", "successful-start", "several-children", "fork-child-side"]),
     assumptions=["reads are only issued when they cannot block for ever; stdin writes stay below the pipe capacity", "invalid pointers are out of scope by the property's wording"],
 )
+
+prop(
+    "C02",
+    title="Stream fidelity: bytes arrive once, in order; end-of-stream exactly at the end",
+    level="exploration",
+    engine="vtime",
+    campaigns=[dict(bin="C02", random=dict(quick=3000, thorough=50000))],
+    level_text=("Nine cases in ten run on the virtual-time engine: 2-30 interleaved steps of child writes (sizes 0, 1, 2, 7, 4095-4097, 65535-65537, 128 KiB, 1 MiB+3, 3 MiB, 8 MiB and random), child closes, "
+                "child exit, child reads of stdin, parent reads with buffer sizes {0, 1, 7, 4096, 65536, 1 MiB}, parent writes, parent closes and polls; blocking and nonblocking; stderr as its own "
+                "pipe, redirected to stdout (exact merged order checked), or not piped; stdin fed by reproc_write, by start-up input, or closed at once; then everything is drained to the end. One case in "
+                "ten is a real-clock full-duplex bulk transfer (up to 8 MiB per direction, thorough 64 MiB) against a free-running child through poll/read/write or reproc_drain. Content is a fixed function of "
+                "(stream, offset): the oracle checks prefix-equality at every read, that the closed-stream error comes only when the child has closed the stream (or exited) and every written byte was "
+                "delivered, that it is sticky afterwards, and that the child's own report of stdin (count, first mismatch, end-of-file) equals what writes accepted."),
+    level_note="A single transfer is capped far below the 2 GiB int limit. In virtual-time cases reads that would wait for ever are not issued (C17 covers waiting); real-clock cases report a stall only after 20 s without any event.",
+    technique="property-based testing (rapidcheck tape) with a pattern round-trip oracle on the virtual-time engine and on the real clock",
+    rule=("tape -> mode flags and the step list (V) or stream sizes / child chunk size / drain-or-loop / echo (R). Non-trivial: a stream carried more than 65 536 bytes, or a zero-size buffer was used, or stdout "
+          "and stderr were both piped and both written, or start-up input was non-empty. Distinct: hash of the executed step log (V) or of the sizes (R)."),
+    essential=dict(quick=["engine-V", "engine-R", "stream-above-64KiB", "zero-size-buffer", "stdout-and-stderr-interleaved", "startup-input", "stderr-to-stdout", "blocking", "nonblocking", "via-drain"]),
+    assumptions=["SIGPIPE ignored in the parent", "with stderr redirected to stdout child writes are kept <= 4096 bytes (atomic) so that script order is pipe order"],
+)
